@@ -100,6 +100,18 @@ PROPS = {
         assumptions=["N <= 3, op sequences <= N+2", "alignment UB (read vs read_unaligned on packed fields) is invisible to Kani"],
         unchecked=["leak-on-panic paths (Kani cannot observe state after a panic)"],
     ),
+    "C16": _p(
+        "Comparison functions and macros agree with std equality and ordering",
+        kani=["c16"], verus=["c16"], level="proof",
+        level_text="Verus: eq_str/cmp_str, eq_bytes/cmp_bytes and the typed eq_slice_*/cmp_slice_* (12 integer types, char; eq only for bool) proved equal to sequence equality / lexicographic order "
+                   "(first differing element, then length) for every pair of slices. Kani complete harnesses (loop-free, full domain): cmp_<int> x12, bool, char, Ordering, Option, NonZero x12, ranges, impl_cmp!, "
+                   "const_eq!/const_cmp! dispatch; Kani bounded: nested slices, const_eq_for!/const_cmp_for!, assertc_* (panic side on concrete pairs)",
+        technique="Verus loop invariants against a lexicographic spec (common-prefix length) + Kani complete harnesses for scalars/Option/NonZero/ranges + bounded harnesses for nested slices and macros",
+        assumptions=["lex_cmp (first differing element decides, then length) is <[T] as Ord>::cmp (Kani SPEC harnesses c16_spec_* against the real std, bounded)",
+                     "Kani 0.68 mis-encodes < and > on symbolic bool operands: bool inputs are enumerated concretely"],
+        unchecked=["assertc_eq!/assertc_ne! panic side with symbolic operands (message formatting does not terminate in CBMC): 4 concrete pairs per macro",
+                   "cmp_slice_bool under Verus (internal error on `l > r` for bools): Kani only"],
+    ),
 }
 
 NOT_APPLICABLE = {
@@ -116,6 +128,5 @@ PENDING = {
     "C09": "check under construction",
     "C13": "check under construction",
     "C14": "check under construction",
-    "C16": "check under construction",
     "C19": "check under construction",
 }
